@@ -14,5 +14,5 @@ INIT MCInit
 NEXT MCNext
 SYMMETRY Symm
 
-INVARIANTS TypeOK CloseInvalidatesOwn NoOrphans CursorInRange IdsUnique NoSelfDeadlock NoHang NoWaitCycle LocksOwned ExistenceAgrees ReadCopiesMin InvalidReported
+INVARIANTS TypeOK CloseInvalidatesOwn NoOrphans CursorInRange IdsUnique NoSelfDeadlock NoHang NoWaitCycle LockOrderInv LocksOwned ExistenceAgrees ReadCopiesMin InvalidReported
 CHECK_DEADLOCK TRUE
